@@ -79,9 +79,9 @@ type benignParams struct {
 	ClientAuth   gmtls.ClientAuthType
 	ClientCert   int // 0 none 1 valid 2 untrusted (other CA)
 	SrvClientCAs bool
-	SrvCertSrc   int // 0 static 1 callbacks 2 GetConfigForClient 3 callbacks decline (nil, nil), static list present 4 callbacks decline, nothing static
+	SrvCertSrc   int      // 0 static 1 callbacks 2 GetConfigForClient 3 callbacks decline (nil, nil), static list present 4 callbacks decline, nothing static
 	Curves       []uint16 // TLS: CurvePreferences of both ends (nil = default)
-	CliCertSrc   int // 0 static 1 GetClientCertificate
+	CliCertSrc   int      // 0 static 1 GetClientCertificate
 	Tickets      bool
 	DynOff       bool
 	SrvKey       int  // TLS: 0 rsa 1 ecdsa
